@@ -32,7 +32,8 @@ NOT_ASSERTED = ['the full 2^32 x 256 transition relation of CRC-32C (out of reac
 
 def BOUNDS(tier):
     return {'crc16_lengths': '0..3 complete', 'crc32c_lengths': '0..2 complete' + (' + 3 complete' if tier == 'thorough' else ' + 3 for 16 first bytes x all'),
-            'long_messages': 'lengths 4..4096 structured', 'exhaustive': True}
+            'long_messages': 'lengths 4..4096 structured', 'length_alphabet': f'{len(length_alphabet(tier))} lengths up to {max(length_alphabet(tier))} (2^k-1, 2^k, 2^k+1, 3*2^k, multiples of 65536 +-1)',
+            'held_results': 'every result re-compared after the following calls', 'exhaustive': True}
 
 
 def selftest():
@@ -40,7 +41,7 @@ def selftest():
 
 
 def REQUIRED_COVER(tier):
-    return {'crc16:len0', 'crc16:len3', 'crc32c:len0', 'crc32c:len2', 'crc32c:big', 'crc32c:long'}
+    return {'crc16:len0', 'crc16:len3', 'crc32c:len0', 'crc32c:len2', 'crc32c:big', 'crc32c:long', 'lengths', 'held-results'}
 
 
 def shards(tier, seed):
@@ -59,6 +60,8 @@ def shards(tier, seed):
                                                                    [4, 5, 7, 8, 9, 15, 16, 17, 31, 32, 33, 34, 36, 63, 64, 65])]
     for p in range(8):
         out.append({'fn': 'shard_history', 'args': {'part': p, 'parts': 8, 'depth': 3 if tier == 'quick' else 4}})
+    for p in range(16):
+        out.append({'fn': 'shard_lengths', 'args': {'part': p, 'parts': 16}, 'prio': 8})
     return out + longs
 
 
@@ -163,9 +166,16 @@ def shard_short(rec):
     """all messages of length 0..2, both functions, all byte orders"""
     from pytoniq_core.crypto.crc import crc16, crc32c
     msgs = [b''] + [bytes([a]) for a in range(256)] + [bytes([a, b]) for a in range(256) for b in range(256)]
+    prev = None
     for d in msgs:
         w16 = R.crc16(d)
-        if crc16(d) != w16:
+        g16 = crc16(d)
+        if prev is not None and prev[0] != prev[1]:
+            rec.violation('crc16:held-result', f'the result of crc16({prev[2].hex()}) changed after crc16({d.hex()}) was computed: {bytes(prev[0]).hex()} instead of {prev[1].hex()}', 'shard_short', {})
+            prev = None
+        else:
+            prev = (g16, w16, d)
+        if g16 != w16:
             case_crc16(rec, d.hex())
         w32 = R.crc32c(d, 'little')
         if crc32c(d) != w32:
@@ -228,6 +238,52 @@ def shard_crc32_len3(rec, p0_lo, p0_hi):
     rec.trans(n)
     rec.bulk(states=n, nontrivial=n)
     rec.outcome('crc32c-len3-ok')
+
+
+def length_alphabet(tier):
+    ls = set()
+    for k in range(2, 19 if tier == 'quick' else 21):
+        ls |= {(1 << k) - 1, 1 << k, (1 << k) + 1}
+    for k in range(9, 17):
+        ls |= {3 << k, (3 << k) + 1}
+    for m in (2, 3, 4, 5):
+        ls |= {65536 * m - 1, 65536 * m, 65536 * m + 1}
+    ls |= {1000, 4095, 10 ** 4, 10 ** 5, 65521}
+    return sorted(ls)
+
+
+def shard_lengths(rec, part, parts):
+    """block / word / buffer boundaries: every length 2^k-1, 2^k, 2^k+1 up to 2^18 (thorough 2^20), 3*2^k, multiples of 65536 +-1, a few others;
+    two backgrounds; crc16 and crc32c in both byte orders against the table form of the bitwise reference.  Results are HELD: every result is
+    compared again after the following call (a checksum handed out earlier must not change when another one is computed)."""
+    from pytoniq_core.crypto.crc import crc16, crc32c
+    held = []
+    n = 0
+    for i, L in enumerate(length_alphabet(rec.tier)):
+        if i % parts != part:
+            continue
+        for bg_name in ('fill', '00'):
+            m = (filler(rec.seed, f'crclen{L}', 4096) * (L // 4096 + 1))[:L] if bg_name == 'fill' else bytes(L)
+            w32, w16 = R.crc32c_fast(m, 'little'), R.crc16_fast(m)
+            for fn, got, want in (('crc32c', crc32c(m), w32), ('crc32c:big', crc32c(m, 'big'), w32[::-1]), ('crc16', crc16(m), w16)):
+                n += 1
+                if got != want:
+                    rec.violation(f'{fn.split(":")[0]}:length', f'{fn} of a {L}-byte message ({bg_name}) is {bytes(got).hex()}, bitwise definition gives {want.hex()}', 'shard_lengths',
+                                  {'part': part, 'parts': parts})
+                for f2, g2, w2, L2 in held:
+                    if g2 != w2:
+                        rec.violation(f'{f2.split(":")[0]}:held-result', f'the result of {f2} on a {L2}-byte message changed after a later call ({fn} on {L} bytes): '
+                                      f'{bytes(g2).hex()} instead of {w2.hex()}', 'shard_lengths', {'part': part, 'parts': parts})
+                held = (held + [(fn, got, want, L)])[-3:]
+            rec.state(('len', L, bg_name))
+            rec.nontriv(('len', L, bg_name))
+    rec.case('lengths', n)
+    rec.trace(n)
+    rec.trans(n)
+    rec.covered('lengths', 'held-results')
+    if part == 0:
+        rec.sample({'fn': 'crc32c', 'len': 65536, 'background': 'filler(seed)', 'oracle': 'table form of the bitwise reference; result re-compared after the next 3 calls'})
+    rec.outcome('lengths-ok')
 
 
 def shard_long(rec, lens):
